@@ -209,11 +209,17 @@ func Run(a RunArgs) int {
 			go func(w int) {
 				defer wg.Done()
 				start := w
+				outside := 0
 				for attempt := 0; start < n; attempt++ {
 					out := filepath.Join(tmp, fmt.Sprintf("w%d.%d.out", w, attempt))
 					prog := filepath.Join(tmp, fmt.Sprintf("w%d.%d.prog", w, attempt))
 					se := filepath.Join(tmp, fmt.Sprintf("w%d.%d.err", w, attempt))
 					code, err := spawn(workerArgs(a, start, W, n, -1, "", out, prog, 60), se)
+					for retry := 0; err != nil && retry < 5; retry++ {
+						// the process could not be started (e.g. fork failure on a loaded machine): nothing ran, try again
+						time.Sleep(time.Duration(2+retry*3) * time.Second)
+						code, err = spawn(workerArgs(a, start, W, n, -1, "", out, prog, 60), se)
+					}
 					rs := readResults(out)
 					mu.Lock()
 					results = append(results, rs...)
@@ -229,6 +235,14 @@ func Run(a RunArgs) int {
 					}
 					idx, marker := lastOpen(prog)
 					if idx < 0 {
+						// died between two cases (killed from outside?): resume after the last finished case, a few times at most
+						outside++
+						if outside <= 3 {
+							if len(rs) > 0 {
+								start = rs[len(rs)-1].Index + W
+							}
+							continue
+						}
 						mu.Lock()
 						inconcl = append(inconcl, fmt.Sprintf("worker %d exited %d outside any case: %s", w, code, tail(se, 2000)))
 						mu.Unlock()
